@@ -344,10 +344,43 @@ fn drive_flush(sh: &Shared, fid: u64, fut: FlushWait, op: &Value, start_nexts: u
     }
 }
 
+/// Entries a thread appends from the destructor of one of its thread-locals, while it exits.
+struct ExitAppend {
+    sh: Arc<Shared>,
+    h: Option<Handle>,
+    thread: u64,
+    seq: u64,
+    n: u64,
+}
+impl Drop for ExitAppend {
+    fn drop(&mut self) {
+        if let Some(h) = self.h.take() {
+            for _ in 0..self.n {
+                do_append(&self.sh, &h, self.thread, &mut self.seq);
+            }
+            drop(h);
+            self.sh.hist.log(K::HandleCloneDropped);
+            self.sh.hist.log(K::Note("append_from_a_thread_local_destructor".into()));
+        }
+    }
+}
+thread_local! {
+    static EXIT_APPENDS: std::cell::RefCell<Vec<ExitAppend>> = std::cell::RefCell::new(Vec::new());
+}
+
 fn run_ops(sh: &Arc<Shared>, h: &Handle, thread: u64, ops: &[Value]) {
     let mut seq = 0u64;
+    if ops.iter().any(|o| js(o, "op", "") == "append_at_exit") {
+        // (the thread-local exists before this thread's first append: whatever the library keeps per thread is younger)
+        EXIT_APPENDS.with(|c| c.borrow_mut().reserve(1));
+    }
     for op in ops {
         match js(op, "op", "") {
+            "append_at_exit" => {
+                let n = ju(op, "n", 1);
+                EXIT_APPENDS.with(|c| c.borrow_mut().push(ExitAppend { sh: sh.clone(), h: Some(h.clone()), thread, seq, n }));
+                seq += n;
+            }
             "append" if jb(op, "unwinding", false) => {
                 // every append is made by a destructor that runs while the thread unwinds from a panic
                 // (`std::thread::panicking()` is true inside the sink): an entry appended that way counts like any other
@@ -472,7 +505,7 @@ fn run_ops(sh: &Arc<Shared>, h: &Handle, thread: u64, ops: &[Value]) {
 }
 
 fn count_appends(ops: &[Value]) -> u64 {
-    ops.iter().filter(|o| matches!(js(o, "op", ""), "append" | "append_bare") || (js(o, "op", "") == "guard" && js(o, "how", "drop") == "drop")).map(|o| ju(o, "n", 1)).sum()
+    ops.iter().filter(|o| matches!(js(o, "op", ""), "append" | "append_bare" | "append_at_exit") || (js(o, "op", "") == "guard" && js(o, "how", "drop") == "drop")).map(|o| ju(o, "n", 1)).sum()
 }
 
 fn count_bare_appends(plan: &Value) -> u64 {
@@ -1334,6 +1367,7 @@ fn finish_report(mut r: Report, out: detsim::Outcome, run: Option<QueueRun>, pla
                     K::FlushCancelled { .. } => r.fault("future_cancelled", 1),
                     K::Forget => r.fault("handle_forgotten", 1),
                     K::Note(n) if n == "flush_requested_from_inside_a_waker" => r.fault("flush_requested_from_inside_a_waker", 1),
+                    K::Note(n) if n == "append_from_a_thread_local_destructor" => r.fault("append_from_a_thread_local_destructor", 1),
                     _ => {}
                 }
             }
@@ -1525,6 +1559,27 @@ fn flush_from_writer_stratum(mut plan: Value) -> Value {
     plan
 }
 
+/// One plan in twelve: the first producer's last appends are made by the destructor of a thread-local, while the
+/// thread exits.
+fn exit_append_stratum(mut plan: Value, room: bool) -> Value {
+    let h = mix(ju(plan.get("sched").unwrap_or(&Value::Null), "seed", 0), 0xe817a);
+    if h % 12 == 0 {
+        let n = 1 + (h / 12) % 3;
+        let mut added = false;
+        if let Some(p) = plan.get_mut("producers").and_then(|p| p.as_array_mut()).and_then(|p| p.first_mut()).and_then(|p| p.as_array_mut()) {
+            if !p.iter().any(|o| matches!(js(o, "op", ""), "pressure" | "flush_storm")) {
+                p.push(json!({"op":"append_at_exit","n": n}));
+                added = true;
+            }
+        }
+        if added && room {
+            // (the plan's capacity was chosen so that nothing overflows)
+            plan["capacity"] = json!(ju(&plan, "capacity", 0) + n);
+        }
+    }
+    plan
+}
+
 /// One plan in sixteen: before any entry has been appended (and before any other thread exists) the main thread asks
 /// the new queue for a flush and waits for it.
 fn idle_flush_stratum(mut plan: Value) -> Value {
@@ -1582,7 +1637,7 @@ impl Scenario for QueueFifo {
         4
     }
     fn generate(&self, rng: &mut Rng, tier: Tier) -> Value {
-        long_idle_stratum(outage_stratum(unwinding_append_stratum(huge_timeout_stratum(gen_c01(rng, tier)))))
+        exit_append_stratum(long_idle_stratum(outage_stratum(unwinding_append_stratum(huge_timeout_stratum(gen_c01(rng, tier))))), true)
     }
     fn run(&self, plan: &Value) -> Report {
         let (out, run) = run_queue_plan(plan);
@@ -1868,7 +1923,7 @@ impl Scenario for QueueOverflow {
         "C09"
     }
     fn generate(&self, rng: &mut Rng, tier: Tier) -> Value {
-        children_stratum(outage_stratum(unwinding_append_stratum(huge_timeout_stratum(gen_c09(rng, tier)))))
+        exit_append_stratum(children_stratum(outage_stratum(unwinding_append_stratum(huge_timeout_stratum(gen_c09(rng, tier))))), false)
     }
     fn run(&self, plan: &Value) -> Report {
         let (out, run) = run_queue_plan(plan);
